@@ -51,10 +51,6 @@ def real_python(texts: Sequence[str]) -> Dict[str, Verdict]:
 # ---------------------------------------------------------------------------------------------
 
 
-def _single_line(t: str) -> bool:
-    return not any(c in t for c in "\n\r\x0b\x0c\x1c\x1d\x1e\x85  ") or True
-
-
 def _error_lines(stderr: str, fname: str) -> List[int]:
     return sorted({int(m.group(1)) for m in re.finditer(r"%s:(\d+)(?::\d+)?: (?:fatal )?error" % re.escape(fname), stderr)})
 
@@ -100,7 +96,7 @@ def _cpp_write(chunk: Sequence[str], skip: set, path: pathlib.Path) -> int:
 
 
 def _cpp_cmd(src: pathlib.Path, exe: pathlib.Path) -> List[str]:
-    return ["g++", "-std=c++17", "-w", "-O0", "-fmax-errors=0", "-o", str(exe), str(src)]
+    return ["g++", "-std=c++17", "-pedantic-errors", "-O0", "-fmax-errors=0", "-o", str(exe), str(src)]
 
 
 def _cpp_chunk_start(chunk: Sequence[str], workdir: pathlib.Path, ci: int):
